@@ -234,3 +234,58 @@ func vEncodeChunks(chunks []VSpecLZMA2Chunk) (z, content []byte, ok bool) {
 	z = append(z, 0)
 	return z, x.hist, true
 }
+
+// GEN-far: matches at large distances through the REAL range coder. A
+// history of 300 bytes (one raw chunk) or 131072 bytes (two raw chunks of
+// 64 KiB) is followed by an LZMA chunk holding a match at a distance around
+// the slot boundaries of the distance codec (direct bits and align bits),
+// then a literal and a rep0 match. TC3 decides the distance codec on all
+// 2^32 values over the ideal channel; this run connects it with the real
+// arithmetic coder and the real window.
+func VH_GEN_far() {
+	big := vConcretize(int(vNondetU8("bigHistory"))%2) == 1
+	vAssume(vShards() == 1 || (vShardIdx() == 1) == big)
+	var chunks []VSpecLZMA2Chunk
+	hl := 300
+	mk := func(n, seed int) []byte {
+		p := make([]byte, n)
+		for i := range p {
+			p[i] = byte((i*7 + seed) % 251)
+		}
+		return p
+	}
+	if big {
+		chunks = append(chunks, VSpecLZMA2Chunk{Kind: 1, Raw: mk(65536, 3)}, VSpecLZMA2Chunk{Kind: 2, Raw: mk(65536, 5)})
+		hl = 131072
+	} else {
+		chunks = append(chunks, VSpecLZMA2Chunk{Kind: 1, Raw: mk(300, 3)})
+	}
+	var dists []uint32
+	if big {
+		dists = []uint32{65534, 65535, 65536, 98303, 98304, 131071}
+	} else {
+		dists = []uint32{3, 4, 126, 127, 128, 191, 192, 255, 256, 299}
+	}
+	dist := dists[vConcretize(int(vNondetU8("dist"))%len(dists))]
+	n := []int{2, 17, 273}[vConcretize(int(vNondetU8("len"))%3)]
+	pv := vConcretize(int(vNondetU8("props")) % 2)
+	p := []Properties{{3, 0, 2}, {0, 2, 4}}[pv]
+	chunks = append(chunks, VSpecLZMA2Chunk{Kind: 5, LC: uint(p.LC), LP: uint(p.LP), PB: uint(p.PB),
+		Ops: []VSpecOp{{Kind: 1, Dist: dist, Len: n}, {Kind: 0, Byte: 0xa5}, {Kind: 3, Rep: 0, Len: 5}}})
+	z, content, ok := VSpecLZMA2Encode(chunks)
+	vAssert(ok && len(content) == hl+n+1+5, "generator produces a legal stream")
+	window := 4096
+	if big {
+		window = 1 << 18
+	}
+	ref, used, _, rok := VSpecLZMA2Decode(z, uint32(window))
+	vAssert(rok == (int(dist) < window) && (!rok || (used == len(z) && bytes.Equal(ref, content))), "reference decoder agrees (and rejects a distance beyond the declared window)")
+	r, err := Reader2Config{DictCap: window}.NewReader2(&vSrc{data: z, end: len(z)})
+	vAssert(err == nil, "reader constructed")
+	out, rerr := vReadAll(r, 4000)
+	if int(dist) < window {
+		vAssert(rerr == io.EOF && bytes.Equal(out, content), "a match at a large distance decodes to the right bytes")
+	} else {
+		vAssert(rerr != nil && rerr != io.EOF, "a distance beyond the window is rejected")
+	}
+}
